@@ -4,6 +4,8 @@ CONSTANTS
   s2 = s2
   o1 = o1
   o2 = o2
+  w1 = w1
+  w2 = w2
   None = None
   Starts = {s1}
   IdOf <- IdOfDef
@@ -18,6 +20,8 @@ CONSTANTS
   AllowClose = FALSE
   AllowDo = TRUE
   AllowIndicate = TRUE
+  WObjs = {w1}
+  PoolOnError = FALSE
   IdleCollects = 1
   RtoChanges = 2
   DeadlineTicks = FALSE
@@ -32,6 +36,7 @@ INVARIANT RoutedByID
 INVARIANT ConnOwnership
 INVARIANT GoroutinesGone
 INVARIANT DoNotStuck
+INVARIANT NoPanic
 INVARIANT IndicationsAreNotTransactions
 PROPERTY ClosedStartsRefused
 PROPERTY RtoSnapshot
